@@ -259,3 +259,66 @@ func VHUtil() {
 	vAssert(Coal(np, p, q) == p, "Coal on pointers")
 	vCover("util end")
 }
+
+// VHSumProductLong: Sum and Product over 0..12 arguments. For the integer types wrapping + and *
+// are associative, so any grouping is right; for floats the order matters, and with concrete
+// values of very different magnitudes a sum that is not evaluated strictly left to right rounds
+// differently (symbolic floats at this length are beyond the solvers; the values here are
+// concrete, the lengths and patterns are enumerated).
+func VHSumProductLong() {
+	n := vChoose("n", 13)
+	pat := vChoose("pattern", 4)
+	vals := make([]float64, n)
+	for i := range vals {
+		switch pat {
+		case 0: // one huge value first, then ones
+			vals[i] = 1
+			if i == 0 {
+				vals[i] = 1e16
+			}
+		case 1: // alternating huge and tiny, cancelling
+			vals[i] = []float64{1e16, 1, -1e16, 1}[i%4]
+		case 2: // growing magnitudes
+			vals[i] = float64(i+1) * 0.1
+		case 3: // a huge value in the middle of each block of four
+			vals[i] = 1.5
+			if i%4 == 2 {
+				vals[i] = -3e15
+			}
+		}
+	}
+	sum, prod := 0.0, 1.0
+	for _, v := range vals {
+		sum += v
+		prod *= v
+	}
+	vAssert(vSameF64(Sum(vals...), sum), "Sum (float64, up to 12 arguments) is left-to-right +, 0 for no arguments")
+	vAssert(vSameF64(Product(vals...), prod), "Product (float64, up to 12 arguments) is left-to-right *, 1 for no arguments")
+	v32 := make([]float32, n)
+	s32, p32 := float32(0), float32(1)
+	for i := range v32 {
+		v32[i] = float32(vals[i])
+		if pat == 0 && i == 0 {
+			v32[i] = 1e8
+		}
+		s32 += v32[i]
+		p32 *= v32[i]
+	}
+	vAssert(vSameF32(Sum(v32...), s32), "Sum (float32, up to 12 arguments) is left-to-right +")
+	vAssert(vSameF32(Product(v32...), p32), "Product (float32, up to 12 arguments) is left-to-right *")
+	// integers: wrapping arithmetic with symbolic values at the same lengths
+	iv := make([]int8, n)
+	is, ip := int8(0), int8(1)
+	for i := range iv {
+		iv[i] = vInt8("i")
+		is += iv[i]
+		ip *= iv[i]
+	}
+	vAssert(Sum(iv...) == is, "Sum (int8, up to 12 arguments) is wrapping +")
+	if n <= 6 {
+		vAssert(Product(iv...) == ip, "Product (int8, up to 6 arguments) is wrapping *")
+	}
+	if n >= 9 {
+		vCover("sumproduct long: >= 9 arguments")
+	}
+}
